@@ -88,7 +88,10 @@ def case_split(pieces, facts, max_conds=3):
             for st in sym.subterms(t):
                 if st[0] == "cond" and st[1] not in conds:
                     conds.append(st[1])
-    if len(conds) > max_conds:
+    loopvars = {l["var"] for p in pieces for l in p["loops"] if "var" in l}
+    varying = [c for c in conds if any(a in loopvars or a[0] in ("var", "unk") for a in sym.atoms(c))]
+    if len(conds) > max_conds or varying:
+        # a condition on a loop variable or on a value that changes from one iteration to the next is not a case of the call
         yield None, facts, pieces
         return
     for choice in itertools.product((True, False), repeat=len(conds)):
